@@ -191,6 +191,10 @@ def h_stmt(rng, sid, names):
 
 def h_tree(rng):
     names = PLAIN + rng.sample(GEN_LIKE, rng.randint(1, 5))
+    if rng.random() < 0.2:
+        # names with upper-case letters, and the temporaries' names spelt the same way (names are case sensitive)
+        names = ["x", "Y", "yNew", "<state>y", "<p>K"] + rng.sample(["temp_Y", "temp_yNew", "temp_y", "Tmp", "tmp", "TMP_0",
+                                                                      "temp__p_K", "ifthenelse_Result"], rng.randint(2, 5))
     n = rng.randint(1, 7)
     ids = []
     pool = [f"s{i}" for i in range(10)] + IDS_LIKE
